@@ -513,6 +513,7 @@ func createMisc() {
 		if len(args) == 1 {
 			return args[0]
 		}
+		object.MustFitExpanded(args...) // comparing walks everything a container refers to, as often as it is referred to.
 		minV := args[0]
 		for _, a := range args[1:] {
 			if object.Cmp(a, minV) < 0 {
@@ -527,6 +528,7 @@ func createMisc() {
 		if len(args) == 1 {
 			return args[0]
 		}
+		object.MustFitExpanded(args...)
 		maxV := args[0]
 		for _, a := range args[1:] {
 			if object.Cmp(a, maxV) > 0 {
